@@ -3,23 +3,25 @@ CONSTANTS
   MaxUp = 1
   MaxMsg = 0
   Topics = {}
-  Users = {"u1", "u2"}
-  MaxGc = 1
+  Users = {"u1"}
+  MaxGc = 99
   Grace = 1
-  Methods = {"GET", "HEAD", "POST", "DELETE"}
+  Methods = {"GET", "POST"}
   Keys = {"valid", "missing"}
   Creds = {"token", "missing"}
   Places = {"header"}
-  Sizes = {"small", "over"}
+  Sizes = {"small"}
   Kinds = {"html", "xml", "text", "js", "json", "svg", "pdf", "zip", "png", "gif", "jpeg", "wav", "mp4", "bin", "bin_none", "bin_msg", "bin_junk", "bin_html", "bin_svg", "bin_js", "bin_png", "bin_font", "nofile", "empty"}
   Faults = {"none", "create", "start", "finish"}
   Shapes = {"canon", "noext", "bare", "rel", "dot_in", "updown", "dot_out", "escape", "absolute", "encslash", "encdots", "odd_tail", "odd_head", "query", "queryslash", "dblslash"}
   Limits = {100}
-  NewaccVals = {TRUE, FALSE}
+  NewaccVals = {FALSE}
   AsattVals = {TRUE, FALSE}
+  LongVals = {TRUE, FALSE}
   AllowSlow = TRUE
   DEV_NewaccNoAuth = FALSE
   DEV_ServeUnfinished = FALSE
+  DEV_SniffPadded = FALSE
   DEV_FinishFailLeavesBytes = FALSE
 SPECIFICATION Spec
 VIEW View
